@@ -134,14 +134,14 @@ fn small_fv(t: &ATerm) -> bool {
 }
 
 pub fn gen_history(rng: &mut Rng) -> (Vec<Op>, &'static str) {
-    let stream = match rng.below(13) {
-        0..=3 => "mixed",
-        4 => "symmetry",
-        5 => "redundancy",
-        6 => "selfref",
-        7 | 8 => "binders",
-        9 => "inherit",
-        10 => "symred",
+    let stream = match rng.below(14) {
+        0..=2 => "mixed",
+        3 => "symmetry",
+        4 => "redundancy",
+        5 => "selfref",
+        6 | 7 => "binders",
+        8 | 9 => "inherit",
+        10 | 11 => "symred",
         _ => "deepsym",
     };
     if stream == "inherit" || stream == "symred" || stream == "deepsym" {
